@@ -4,6 +4,7 @@ import Proofs.C10Index
 import Proofs.C10Sub
 import Proofs.C10Align
 import Proofs.C10Gen
+import Proofs.C10Cache
 /-!
 # C10 — string, regex and int() builtins obey their defining equations
 
@@ -244,6 +245,22 @@ theorem repl_tokens (m : Bytes) (toks : List RTok) (h : ∀ t ∈ toks, t.ok) :
     expand m (toks.flatMap RTok.render) = toks.flatMap (RTok.meaning m) :=
   expand_tokens m toks h
 
+/-! ## the regex cache is transparent -/
+
+/-- For every engine (`compile`, `longest`), every cache limit and every history of compilations starting from the empty cache
+(any number of distinct regexes, before and after the cache is full): each call returns exactly what a fresh compilation
+followed by `Longest()` returns — a cache hit, a miss that is stored and a miss that is not stored all give the same regex. -/
+theorem regex_cache_transparent {R : Type} (compile : Bytes → Option R) (longest : R → R) (limit : Nat) (xs : List Bytes) :
+    (compileAll compile longest limit [] xs).1 = xs.map fun x => (compile (addRegexFlags x)).map longest :=
+  compileAll_transparent compile longest limit xs [] (by intro k v h; cases h)
+
+/-- one step, from any cache all of whose entries are honest; the cache stays honest -/
+theorem regex_cache_step {R : Type} (compile : Bytes → Option R) (longest : R → R) (limit : Nat)
+    (cache : List (Bytes × R)) (x : Bytes) (hc : CacheOK compile longest cache) :
+    (compileRegex compile longest limit cache x).1 = (compile (addRegexFlags x)).map longest ∧
+    CacheOK compile longest (compileRegex compile longest limit cache x).2 :=
+  compileRegex_transparent compile longest limit cache x hc
+
 /-! ## the modelled source is the current source (regenerated facts) -/
 
 theorem gen_matches_floatToInt : Generated.C10Builtins.floatToInt = Expected.floatToInt := rfl
@@ -260,6 +277,8 @@ theorem gen_matches_substrLengthChars : Generated.C10Builtins.substrLengthChars 
 theorem gen_matches_sub : Generated.C10Builtins.sub = Expected.sub := rfl
 theorem gen_matches_splitCases : Generated.C10Builtins.splitCases = Expected.splitCases := rfl
 theorem gen_matches_compileRegex : Generated.C10Builtins.compileRegex = Expected.compileRegex := rfl
+theorem gen_matches_maxCachedRegexes : Generated.C10Builtins.maxCachedRegexes = Expected.maxCachedRegexes := rfl
+theorem gen_matches_maxCachedFormats : Generated.C10Builtins.maxCachedFormats = Expected.maxCachedFormats := rfl
 theorem gen_matches_addRegexFlags : Generated.C10Builtins.addRegexFlags = Expected.addRegexFlags := rfl
 
 /-! ## non-vacuity: concrete instances meeting the hypotheses -/
@@ -278,6 +297,8 @@ example : awkSub [97, 98, 99] [60, 38, 62] true [(0, 1), (2, 3)] = ([60, 97, 62,
 example : awkSub [97, 98, 99] [60, 38, 62] false [(0, 1), (2, 3)] = ([60, 97, 62, 98, 99], 1) := by decide
 example : awkSplitLit [97, 44, 98, 44] [44] = [[97], [98], []] := by decide
 example : indexOf [97, 98, 99, 98, 99] [98, 99] = some 1 := by decide
+example : (compileAll (R := Bytes × Bool) (fun b => some (b, false)) (fun r => (r.1, true)) 1 [] [[97], [98], [97], [98]]).1
+    = [some ([40, 63, 115, 58, 97, 41], true), some ([40, 63, 115, 58, 98, 41], true), some ([40, 63, 115, 58, 97, 41], true), some ([40, 63, 115, 58, 98, 41], true)] := by decide
 example : (RTok.text 120).ok := ⟨by decide, by decide⟩
 example : expand [120] ([RTok.amp, .escAmp, .text 45, .escBs].flatMap RTok.render) = [120, 38, 45, 92] := by decide
 
